@@ -11,23 +11,67 @@ def run(ctx):
     # the log export: Reporters.tla CsvRows_Log, every enumerated log through `csv log` and the strict reader
     common.replay_layer(ctx, "MC_Reporters.tla", "MC_Reporters_quick.cfg" if q else "MC_Reporters_thorough.cfg", "reporters-replay", "reporters",
                         workers=10, heap="3g", shape_filter=lambda sh: sh.startswith(CSV))
+    # Csv.tla: writer + RFC 4180 reader automaton, Lossless for every small record over an alphabet with every special character ...
+    for cfg in (["MC_Csv_quick.cfg", "MC_Csv_quick2.cfg"] if q else ["MC_Csv_quick.cfg", "MC_Csv_quick2.cfg", "MC_Csv_thorough.cfg", "MC_Csv_thorough3.cfg"]):
+        ctx.tlc_must_pass("Csv.tla", cfg, workers=8, heap="4g", timeout=1800)
+    # ... and the bytes of the real exports run through that automaton by TLC (Trace_Csv.tla)
+    import os
+    tr = os.path.join(ctx.scratch, "csv_trace.ndjson")
+    r2 = ctx.drv("csv-trace", infile=os.path.join(ctx.scratch, "reporters_cases.ndjson"), outfile=os.path.join(ctx.scratch, "csv_trace_mm.ndjson"), tracefile=tr,
+                 args={"stride": 12 if q else 2})
+    vlib.validate_traces(ctx, "Trace_Csv.tla", "Trace_Csv.cfg", tr, "csv-trace-rejected", "cmd/hranoprovod-cli/internal/csv", timeout=2400, heap="4g")
+    vlib.binding_selftest(ctx, "Trace_Csv.tla", "Trace_Csv.cfg", tr, [("quote-removed", drop_quote), ("row-removed", drop_last_row), ("name-changed", change_name)])
+    ctx.add("evaluations", r2["runs"])
+    ctx.add("distinct_nontrivial", r2["nontrivial"])
+    if not q:
+        vlib.vacuity_check(ctx, "Csv.tla", "MC_Csv_quick.cfg")
     # the two book exports: every enumerated book of Resolver.tla through `csv database` / `csv database-resolved`
     for cfg in (["MC_Resolver_records.cfg", "MC_Resolver_c01_quick_a.cfg", "MC_Resolver_c01_quick_b.cfg"] if q else ["MC_Resolver_records.cfg", "MC_Resolver_c01_quick_a.cfg", "MC_Resolver_c01_quick_b.cfg", "MC_Resolver_c01_thorough_a.cfg"]):
-        common.replay_layer(ctx, "MC_Resolver.tla", cfg, "book-reports-replay", "books_" + cfg[12:-4].replace("c01_", ""), args={"stride": 3 if q else 1}, workers=8,
-                            shape_filter=lambda sh: sh.startswith(CSV + ("resolver-status",)))
+        btr = os.path.join(ctx.scratch, "csv_books_trace_%s.ndjson" % cfg[12:-4])
+        common.replay_layer(ctx, "MC_Resolver.tla", cfg, "book-reports-replay", "books_" + cfg[12:-4].replace("c01_", ""), args={"stride": 3 if q else 1, "trace_every": 4 if q else 2}, workers=8,
+                            shape_filter=lambda sh: sh.startswith(CSV + ("resolver-status",)), tracefile=btr)
+        # the bytes of the book exports of nested books through the automaton of Csv.tla
+        if os.path.exists(btr) and os.path.getsize(btr) > 0:
+            vlib.validate_traces(ctx, "Trace_Csv.tla", "Trace_Csv.cfg", btr, "csv-trace-rejected", "cmd/hranoprovod-cli/internal/csv", timeout=2400, heap="4g")
     # decimal data: amounts within half a unit of the last printed digit of the true value
     res = ctx.drv("csv-decimal", outfile=ctx.scratch + "/dec_mm.ndjson", args={"files": 300 if q else 5000})
     ctx.add("evaluations", res["runs"])
     ctx.add("distinct_nontrivial", res["nontrivial"])
     return vlib.finish(
         ctx, "model_checking",
-        rule="Reporters.tla CsvRows_Log (one row per (day, distinct food) in file order, merged quantity) on every enumerated log; Resolver.tla "
+        rule="Csv.tla: writer as configured by the exports and an independent RFC 4180 reader automaton, Lossless / NeverRejected / FoldAgrees on every small record over {a , \" blank LF CR e-acute}; the bytes of the real exports (code points) are run through that automaton by TLC (Trace_Csv.tla: valid, exactly the wanted rows, ISO dates, fixed precision, resolved book strictly sorted).  Reporters.tla CsvRows_Log (one row per (day, distinct food) in file order, merged quantity) on every enumerated log; Resolver.tla "
              "terminal states (raw book: one row per entry in file order; resolved book: rows sorted by recipe then element) on every enumerated "
              "book; names from a pool with commas, double quotes, tabs, non-ASCII text; every export is read back with an independent strict RFC "
              "4180 reader.  Decimal quantities (tiny, large, ties at the last digit): |printed - exact| <= half a unit, exact = rational sum "
              "of the file's literals.  Non-trivial = >= 2 rows",
-        exhaustive=True, extra_cov=dict(not_decided_in_tla="the RFC 4180 byte grammar itself: decided by the strict reader at the binding"),
+        exhaustive=True, extra_cov=dict(byte_grammar="Csv.tla: RFC 4180 reader automaton; TLC proves Lossless/NeverRejected for the modelled writer on every small record and runs the automaton over the bytes of the real exports (Trace_Csv.tla)"),
         trusted=["parseCSVStrict (hand-written RFC 4180 reader, independent of encoding/csv)", "math/big rationals for the half-unit relation"])
+
+
+def drop_quote(tr):
+    raw = tr[0]["raw"]
+    if 34 in raw:
+        raw.remove(34)
+        return tr
+    return None
+
+
+def drop_last_row(tr):
+    raw = tr[0]["raw"]
+    if raw.count(10) >= 2 and 34 not in raw:
+        cut = len(raw) - 2
+        while raw[cut] != 10:
+            cut -= 1
+        del raw[cut + 1:]
+        return tr
+    return None
+
+
+def change_name(tr):
+    if tr[1]["want"]:
+        tr[1]["want"][0][1].append(120)
+        return tr
+    return None
 
 
 def replay(ctx, path):
